@@ -25,6 +25,9 @@ func (s *Server) serveStream(ctx context.Context, r io.Reader, w io.Writer, req 
 		}
 		emptySchema := arrow.NewSchema(nil, nil)
 		s.logIPCWriteErr("error-response", req.Method, writeErrorResponse(w, emptySchema, handlerErr, s.serverID, req.RequestID, s.debugErrors))
+		// The client has already written its tick/exchange stream. Drain it
+		// so the next request is not read from the middle of that stream.
+		drainInputStream(r)
 		return handlerErr, nil
 	}
 
